@@ -699,10 +699,9 @@ pub fn run_tiny(sc: &TScript, cov: &mut Cov) -> Option<(String, String, usize)> 
                     }
                 }
             }
-            // (ii) reset clock, observed through the hook and through the doorkeeper
-            if real.w() != m.w {
-                return Some(("reset-clock".into(), format!("{} recorded accesses/try_reset calls since the last reset, the estimator's clock says {} (samples {})", m.w, real.w(), sc.samples)));
-            }
+            // (ii) reset clock, observed through the doorkeeper (how the implementation counts
+            // internally is its own business: a late reset shows as "reset-missed" below, an
+            // early one as a doorkeeper false negative or an estimate under the aged count)
             for h in &m.recorded_since_reset {
                 if !real.has_h(*h) {
                     return Some(("doorkeeper-false-negative".into(), format!("hash {} was recorded since the last reset but the doorkeeper does not contain it (reset expected now: {})", h, reset_expected)));
